@@ -319,7 +319,7 @@ func Generate(r *rng.R, tier string, n int, emit func(*common.Case)) {
 		switch {
 		case i%12 == 11:
 			mode = "status"
-		case i%40 == 39:
+		case i%20 == 19:
 			mode = "live"
 		}
 		var inp Input
